@@ -335,8 +335,8 @@ class Ctx:
         if raw:
             return p.returncode, out, p.stderr.decode(errors="replace")
         res = []
-        for line in out.splitlines():
-            line = line.strip()
+        for line in out.split("\n"):   # not splitlines(): U+2028 etc. inside JSON strings are not line ends
+            line = line.strip(" \t\r")
             if not line.startswith("{"):
                 continue
             try:
